@@ -6,9 +6,12 @@ pub mod hmacsplit;
 pub mod lifecycle;
 pub mod macs;
 pub mod polysplit;
+pub mod robust;
 pub mod sigchannel;
 pub mod streampos;
 pub mod streams;
+pub mod xbuild;
+pub mod xcurve;
 
 use crate::trace::Scenario;
 
@@ -24,6 +27,13 @@ pub fn all() -> Vec<&'static dyn Scenario> {
         &hmacsplit::HmacSplit,
         &lifecycle::Lifecycle,
         &sigchannel::SigChannel,
+        &xbuild::HashBulk,
+        &xbuild::EngLock,
+        &xbuild::KdfProbe,
+        &xcurve::X25519Hs,
+        &xcurve::ArithProg,
+        &robust::CtrWrap,
+        &robust::Misuse,
     ]
 }
 
